@@ -190,6 +190,47 @@ def run(prog, rep, tier='quick', config='default'):
     if n_set == 0:
         rep.violation('R3f', 'anchor-lost:flag-construction', detail='anchor lost: construction of DeltaSflInfo')
 
+    # ------------------------------------------------------------------ R3g: an empty status only for an affiliate with no recorded status
+    PSS_T = 'portfolio::model::txdelta::PortfolioSecurityStatus'
+    ctors = [g for g in prog.product_fns() if g.name.startswith('portfolio::bookkeeping::portfolio_status::') and
+             g.kind in ('Fn', 'AssocFn') and g.ty.get(0, '') == PSS_T and
+             any(st['r']['rv'] == 'agg' and st['r']['kind'].startswith('adt:' + PSS_T) for b in g.blocks.values() for st in b['stmts'])]
+    if rep.anchor('constructor of an empty PortfolioSecurityStatus in portfolio_status', ctors):
+        n_sites = 0
+        for g in ctors:
+            for c in prog.callers.get(g.name, []):
+                if mir.is_testsupport(c.fn.name):
+                    continue
+                n_sites += 1
+                fn = c.fn
+                ok_edge = None
+                opt_rx = re.compile(r'std::option::Option<.*PortfolioSecurityStatus')
+                for (sbb, discr, vals, neg) in fn.conditions_at(c.bb):
+                    d = mir.provenance(fn, discr, pass_through=set())
+                    if not any(opt_rx.search(fn.ty.get(l, '')) for l in d.locals):
+                        continue
+                    none_edge = (vals == [0]) or (vals is None and neg is not None and 1 in neg)
+                    if none_edge:
+                        ok_edge = fn.where(fn.blocks[sbb]['term'])
+                if ok_edge is None and fn.kind == 'Closure':
+                    owner = prog.owner_of(fn)
+                    for oc in owner.calls:
+                        if oc.short in ('unwrap_or_else', 'map_or_else', 'or_else') and oc.arg_local(0) is not None and \
+                                opt_rx.search(owner.ty.get(oc.arg_local(0), '')) and \
+                                any(('closure:' + fn.local_name) in mir.provenance(owner, a).aggs for a in oc.args[1:] if is_place(a)):
+                            ok_edge = oc.where() + ' (%s)' % oc.short
+                k = '%s|empty-status-only-when-no-status-recorded#%d' % (fn.name, n_sites)
+                if ok_edge:
+                    rep.ok('R3g', k, where=c.where(), fn=fn.name,
+                           detail='the empty status is built only on the None edge of the affiliate\'s last-status look-up (%s)' % ok_edge)
+                else:
+                    rep.violation('R3g', k, where=c.where(), fn=fn.name,
+                                  detail='an empty status (zero shares, zero cost base) can be handed out for an affiliate that already has a recorded '
+                                         'status: cost base booked on it (for example a denied loss added while it held no shares) is dropped, so the '
+                                         'denied amount is no longer carried anywhere')
+        if n_sites == 0:
+            rep.violation('R3g', 'anchor-lost:empty-status-call-sites', detail='anchor lost: the empty-status constructor has no product caller')
+
     # ------------------------------------------------------------------ R3e: gain = loss - denied amount
     L = ledger.Ledger(prog)
     if L.ok:
